@@ -48,6 +48,7 @@ def step (d : Dir) (line : String) : Dir × String :=
   | "dynnew" :: _ => (d, "ok")
   | "dynadd" :: _ => (d, "ok")
   | "dynrm" :: _ => (d, "ok")
+  | "dynfit" :: _ => (d, "ok")
   | _ => (d, "bad-op")
 
 partial def loop (h : IO.FS.Stream) (out : IO.FS.Stream) (d : Dir) : IO Unit := do
